@@ -366,13 +366,24 @@ def stop_workers():
     _workers.clear()
 
 
+HANG_BUDGET = 3
+_confirmed_hangs = 0
+
+
 def call(req, build="chk", timeout=30.0, retry_alone=True):
     """One request. Returns ("resp", dict) | ("panic", dict) | ("crash", Crash).
 
     A hang is re-tried once with a 4x larger time limit on a fresh worker before
     it is reported (wall clock is a trigger, not a verdict)."""
+    global _confirmed_hangs
+    if _confirmed_hangs >= HANG_BUDGET:
+        # this shard has already seen HANG_BUDGET inputs on which the compiler does not answer (each confirmed alone with a 4x
+        # limit): the finding stands, and a quick run must not spend hours waiting for more of the same
+        return "crash", Crash("hang", "not attempted: %d inputs of this shard already hung" % _confirmed_hangs, "")
     w = get_worker(build)
     resp, crash = w.request(req, timeout)
+    if crash is not None and crash.kind == "hang" and not retry_alone:
+        _confirmed_hangs += 1
     if crash is not None and crash.kind == "hang" and retry_alone:
         w2 = Worker(build)
         resp, crash2 = w2.request(req, timeout * 4)
@@ -381,6 +392,8 @@ def call(req, build="chk", timeout=30.0, retry_alone=True):
             crash = None
         else:
             crash = crash2
+            if crash2.kind == "hang":
+                _confirmed_hangs += 1
     if crash is not None:
         return "crash", crash
     if resp.get("status") == "panic":
@@ -451,13 +464,22 @@ def panic_signature(resp):
 # running emitted IR
 
 
+_lli_timeouts = 0
+
+
 def run_lli(ir, timeout=10.0, stdin_data=None):
-    """Runs IR the way `penne run` does (`lli -`). Returns dict(status, code, stdout, stderr)."""
+    """Runs IR the way `penne run` does (`lli -`). Returns dict(status, code, stdout, stderr).
+    After three programs of this shard ran into the time limit, later ones get 3 s (generated programs finish in
+    milliseconds; a tree on which emitted programs loop for ever must not turn a quick run into hours)."""
+    global _lli_timeouts
+    if _lli_timeouts >= 3:
+        timeout = min(timeout, 3.0)
     try:
         p = subprocess.run([LLI, "-"], input=ir.encode() if isinstance(ir, str) else ir,
                            stdout=subprocess.PIPE, stderr=subprocess.PIPE, timeout=timeout,
                            preexec_fn=_limit_stack)
     except subprocess.TimeoutExpired:
+        _lli_timeouts += 1
         return {"status": "timeout", "code": None, "stdout": b"", "stderr": b""}
     except FileNotFoundError:
         raise HarnessError(LLI + " not found")
